@@ -80,6 +80,7 @@ def run_C14(ctx, rep):
 
 def run_C04(ctx, rep):
     gen_driver.run_gen(ctx, rep, ['G9', 'G12', 'G1G3', 'UI'], floors={'G9': 20, 'G12': 40})
+    gen_driver.run_tv(ctx, rep, only_tags=['agg', 'neg'], floors={'R1': 50})
     agg_rules.check_L11(ctx, rep)
 
 
@@ -101,7 +102,7 @@ def run_C01(ctx, rep):
 def run_C07(ctx, rep):
     sugar = ('t_neg_sugar', 't_wild_sugar', 't_pat_sugar', 't_rep_sugar', 't_rep2_sugar', 't_mh_sugar', 't_disj_sugar')
     gen_driver.run_twins(ctx, rep, lambda n, k: n.replace('_par', '') in sugar, floors={'T.C': 8, 'T.L': 4})
-    gen_driver.run_tv(ctx, rep, only_tags=['twin', 'repeated', 'wild', 'patarg', 'multihead', 'facts', 'consts', 'neg'], floors={'R1': 60})
+    gen_driver.run_tv(ctx, rep, only_tags=['twin', 'repeated', 'wild', 'patarg', 'multihead', 'facts', 'consts', 'neg', 'combo', 'conds'], floors={'R1': 60})
     macro_rules.check_M1(ctx, rep)
 
 
@@ -254,7 +255,10 @@ PROPS = {
         'run': run_C04, 'level': 'other',
         'explanation': 'stratum finality and exactly-once feeding: every aggregation / negation site reads the total version of a body-only index of a '
                        'relation that no same-or-later stratum writes (G9); index entries are one per row (G1 uniqueness, G3 one insertion per row '
-                       'and index, G4 no accumulation on re-run or on lattice updates); shape of the library aggregators (L11).',
+                       'and index, G4 no accumulation on re-run or on lattice updates); every aggregation / negation of the corpus is translation-validated '
+                       '(R1: lookup key = exactly the non-aggregated, non-wildcard arguments incl. identifiers from outside the rule, the aggregator '
+                       'receives the bound columns in declared order); the empty-relation shortcut never tests an aggregated relation (G12); shape of '
+                       'the library aggregators (L11).',
         'assumptions': ['aggregator arithmetic is not decided'],
         'rule_text': 'one instance = one aggregation site / one index maintenance site',
     },
